@@ -144,7 +144,7 @@ Lemma sim_quiet_msg fs qs m fs' rw :
   match m with Stake _ _ _ _ | Unstake _ _ _ _ | Harvest _ _ => True | _ => False end ->
   exec_msg fs m = Done fs' rw -> R fs' qs.
 Proof.
-  intros I Rr QI Hm E. destruct m as [| who pid d amt | who pid d amt | who pid | |]; try contradiction; simpl in E.
+  intros I Rr QI Hm E. destruct m as [| who pid d amt | who pid d amt | who pid | | |]; try contradiction; simpl in E.
   - destruct (stake_Done _ _ _ _ _ _ _ E) as (p & b1 & p1 & b2 & rw0 & db & b3 & Hs). cbv zeta in Hs.
     destruct Hs as (_ & _ & Hg & _ & Hex & _ & _ & Hu & _ & _ & _ & ->).
     apply (R_same_sched fs _ qs Rr QI); try reflexivity; try (intros x; tauto).
@@ -421,13 +421,18 @@ Theorem sim_step fs qs st :
 Proof.
   intros I Hv Rr QI. destruct st as [m|].
   - unfold step_state, exec_step. destruct (exec_msg fs m) as [fs' rw|o] eqn:E; simpl.
-    + destruct m as [who lpt start ed rules|who pid d amt|who pid d amt|who pid|who pid add rpb|who pid].
+    + destruct m as [who lpt start ed rules|who pid d amt|who pid d amt|who pid|who pid add rpb|who pid|who cf tr].
       * exact (sim_create _ _ _ _ _ _ _ _ _ Rr E).
       * exists (noop qs). split; [simpl; trivial|]. rewrite noop_step. refine (sim_quiet_msg fs qs _ fs' rw I Rr QI _ E); exact Logic.I.
       * exists (noop qs). split; [simpl; trivial|]. rewrite noop_step. refine (sim_quiet_msg fs qs _ fs' rw I Rr QI _ E); exact Logic.I.
       * exists (noop qs). split; [simpl; trivial|]. rewrite noop_step. refine (sim_quiet_msg fs qs _ fs' rw I Rr QI _ E); exact Logic.I.
       * exact (sim_adjust _ _ _ _ _ _ _ _ I Rr QI E).
       * exact (sim_destroy _ _ _ _ _ _ I Rr QI E).
+      * (* MsgUpdateParams changes the two parameters only: no operation of the queue model *)
+        exists (noop qs). split; [simpl; trivial|]. rewrite noop_step.
+        simpl in E. unfold update_params in E.
+        destruct (negb (who =? AUTH)); [discriminate|]. destruct (_ || _); [discriminate|].
+        inversion E; subst. destruct Rr as [Rh Rs Rq Rp]. constructor; simpl; assumption.
     + exists (noop qs). split; [simpl; trivial|]. rewrite noop_step. exact Rr.
   - exists (Q.EndBlock [] []). split; [reflexivity|]. exact (sim_next_block _ _ I Rr QI).
 Qed.
